@@ -452,6 +452,129 @@ func runAPI(s *hlib.Suite, r *hlib.Rng, n int) {
 	s.Add(term, desc, len(groups) >= 2)
 }
 
+// runBig: public GroupBy / Distinct on frames with tens of thousands of distinct keys, so that the table passes
+// 2^16 and 2^17 slots.  Decided in Go only (the table model is quadratic in the table size): every key must form
+// exactly one group holding all its rows, Distinct must return one row per key.
+func runBig(s *hlib.Suite, r *hlib.Rng, distinct, reps int) {
+	n := distinct * reps
+	keys := make([]int, n)
+	for i := range keys {
+		keys[i] = (i % distinct) * 7
+	}
+	// shuffle so that recurrences are spread over the whole insertion sequence
+	for i := n - 1; i > 0; i-- {
+		j := r.Intn(i + 1)
+		keys[i], keys[j] = keys[j], keys[i]
+	}
+	rowid := make([]int, n)
+	for i := range rowid {
+		rowid[i] = i
+	}
+	desc := map[string]interface{}{"kind": "big", "rows": n, "distinct_keys": distinct, "props": []string{"C04", "C05"}}
+	qf := qframe.New(map[string]interface{}{"k": keys, "rowid": rowid})
+	failed := ""
+	if p, v := hlib.Recover(func() {
+		g := qf.GroupBy(groupby.Columns("k"))
+		if g.Err != nil {
+			failed = "GroupBy error: " + g.Err.Error()
+			return
+		}
+		qfs, err := g.QFrames()
+		if err != nil {
+			failed = "QFrames error: " + err.Error()
+			return
+		}
+		if len(qfs) != distinct {
+			failed = fmt.Sprintf("GroupBy returned %d groups for %d distinct keys", len(qfs), distinct)
+			return
+		}
+		seen := map[int]bool{}
+		for _, gq := range qfs {
+			kv := gq.MustIntView("k")
+			if kv.Len() != reps {
+				failed = fmt.Sprintf("the group of key %d has %d rows, the key occurs %d times", kv.ItemAt(0), kv.Len(), reps)
+				return
+			}
+			k0 := kv.ItemAt(0)
+			for i := 1; i < kv.Len(); i++ {
+				if kv.ItemAt(i) != k0 {
+					failed = "a group holds rows of different keys"
+					return
+				}
+			}
+			if seen[k0] {
+				failed = fmt.Sprintf("key %d forms more than one group", k0)
+				return
+			}
+			seen[k0] = true
+		}
+		d := qf.Distinct(groupby.Columns("k"))
+		if d.Err != nil || d.Len() != distinct {
+			failed = fmt.Sprintf("Distinct returned %d rows for %d distinct keys (err %v)", d.Len(), distinct, d.Err)
+		}
+	}); p {
+		failed = fmt.Sprintf("panic: %v", v)
+	}
+	s.Count("big/tables")
+	if failed != "" {
+		s.Fail(s.NextID(), failed, desc, "")
+	}
+}
+
+// runDistinctAll: Distinct without columns uses all columns as the key, with the Null option honoured.
+func runDistinctAll(s *hlib.Suite, r *hlib.Rng) {
+	n := 4 + r.Intn(10)
+	strs := make([]*string, n)
+	fl := make([]float64, n)
+	ints := make([]int, n)
+	for i := range strs {
+		switch r.Intn(3) {
+		case 0:
+			strs[i] = nil
+		default:
+			strs[i] = sp([]string{"a", ""}[r.Intn(2)])
+		}
+		fl[i] = []float64{1, math.NaN(), 0}[r.Intn(3)]
+		ints[i] = r.Intn(2)
+	}
+	nulleq := r.Bool()
+	desc := map[string]interface{}{"kind": "distinct-all-columns", "null_equal": nulleq, "n": n, "props": []string{"C05"}}
+	qf := qframe.New(map[string]interface{}{"s": strs, "f": fl, "i": ints})
+	var a, b qframe.QFrame
+	if p, v := hlib.Recover(func() {
+		a = qf.Distinct(groupby.Null(nulleq))
+		b = qf.Distinct(groupby.Columns("f", "i", "s"), groupby.Null(nulleq))
+	}); p {
+		s.Fail(s.NextID(), fmt.Sprintf("Distinct panicked: %v", v), desc, "")
+		return
+	}
+	s.Count("distinct-all-columns")
+	if a.Err != nil || b.Err != nil || a.Len() != b.Len() {
+		s.Fail(s.NextID(), fmt.Sprintf("Distinct() without columns returns %d rows, Distinct over all columns named explicitly %d rows", a.Len(), b.Len()), desc, "")
+		return
+	}
+	// the expected number of rows, counted directly: rows are equal when all three cells are equal; a null cell
+	// (nil string, NaN) equals only another null, and only with Null(true)
+	count := 0
+	for i := 0; i < n; i++ {
+		dup := false
+		hasNull := strs[i] == nil || math.IsNaN(fl[i])
+		for j := 0; j < i && !dup; j++ {
+			same := ints[i] == ints[j] && ((strs[i] == nil && strs[j] == nil) || (strs[i] != nil && strs[j] != nil && *strs[i] == *strs[j])) &&
+				((math.IsNaN(fl[i]) && math.IsNaN(fl[j])) || fl[i] == fl[j])
+			if same && (nulleq || !hasNull) {
+				dup = true
+			}
+		}
+		if !dup {
+			count++
+		}
+	}
+	if a.Len() != count {
+		s.Fail(s.NextID(), fmt.Sprintf("Distinct() returns %d rows, the frame has %d distinct rows", a.Len(), count), desc, "")
+	}
+}
+
 func nListInt(v []int) string {
 	it := make([]string, len(v))
 	for i, x := range v {
@@ -552,6 +675,19 @@ func main() {
 		}
 		fr := r.Fork()
 		jobs = append(jobs, func() { runAPI(s, fr, n) })
+	}
+	// (b2) tables beyond 2^16 and 2^17 slots (Go-side decision), Distinct over all columns
+	{
+		fr := r.Fork()
+		jobs = append(jobs, func() { runBig(s, fr, 40000, 3) })
+		if cfg.Tier == "thorough" {
+			fr2 := r.Fork()
+			jobs = append(jobs, func() { runBig(s, fr2, 70000, 2) })
+		}
+		for i := 0; i < 20; i++ {
+			fr3 := r.Fork()
+			jobs = append(jobs, func() { runDistinctAll(s, fr3) })
+		}
 	}
 	// (c) thorough only: exhaustive small scope — every partition of 1..5 rows into key classes, every
 	// assignment of a hash from {0, 1, 7, 8} to the classes (0/8 collide in a table of 8 slots, 7 wraps)
